@@ -317,6 +317,7 @@ def run(chk):
     from .c15 import codec_rule
     codec_rule(chk, load_program("tar2sqfs"))     # corrupted compressed input must not make the wrappers spin
     cleanup_rule(chk)
+    controls(chk)
     chk.floor("K6-limit", 4)
     chk.floor("K6-index", 1)
     chk.floor("K1-validate", 6)
@@ -326,3 +327,15 @@ def run(chk):
     chk.floor("K1-progress", 1)
     chk.floor("K1-chase", 1)
     chk.floor("K-codec", 4)
+
+
+def controls(chk):
+    from ..controls import control_program
+    from ..report import Check
+    from ..progress import run_progress
+    prog = control_program("c07_controls.c")
+    sub = Check("C07-control", chk.tier)
+    run_progress(sub, prog, "K1-progress", lambda src: True)
+    got = {(o["rule"], o["function"]) for o in sub.obl if o["verdict"] == "VIOLATED"}
+    chk.control("K1-progress", ("K1-progress", "ctl_get_bad") in got, "success with a size that was never tested against zero")
+    chk.control("K1-progress/silent", ("K1-progress", "ctl_get_good") not in got, "tested size must not be reported")
